@@ -34,6 +34,7 @@ void loom_set_gindex(struct loom *loom, int64_t gindex) { if (g_lg_n == g_k) { g
 
 /* ---- stubs: recorder, thread/cpu connection, row names, pcf types ---- */
 struct pvt *g_pvt_cpu, *g_pvt_th;
+unsigned g_decl_cpu;                      /* type declarations made in the .pcf of the cpu trace */
 unsigned g_addc_n, g_addt_n, g_addx_n; long g_addc_rows, g_addt_rows; void *g_add_rec;
 struct pvt *recorder_add_pvt(struct recorder *rec, const char *name, long nrows)
 {
@@ -63,6 +64,15 @@ int cpu_connect(struct cpu *cpu, struct bay *bay, struct recorder *rec)
 	return 0;
 }
 static struct pcf_type g_aff_obj; static struct pcf_value g_val_obj;
+/* cpu.c: declares the CPU base types (proved in group cpu_create_pcf_types) */
+unsigned g_cp_n; void *g_cp_pcf;
+int cpu_create_pcf_types(struct pcf *pcf)
+{
+	g_cp_n++; g_cp_pcf = pcf;
+	if (g_pvt_cpu != NULL && (void *) pcf == (void *) &g_pvt_cpu->pcf) g_decl_cpu++;
+	if (nondet_bool()) { g_lowfail++; return -1; }
+	return 0;
+}
 int g_kp;                                 /* observed prf_add ordinal: arbitrary */
 int g_pa2_n; void *g_pa2_prf; long g_pa2_idx;
 int prf_add(struct prf *prf, long index, const char *name)
@@ -74,7 +84,6 @@ int prf_add(struct prf *prf, long index, const char *name)
 	return 0;
 }
 unsigned g_tp_n; void *g_tp_pcf;
-unsigned g_decl_cpu;                      /* type declarations made in the .pcf of the cpu trace */
 #define IS_CPU_PCF(pcf) (g_pvt_cpu != NULL && (void *) (pcf) == (void *) &g_pvt_cpu->pcf)
 struct pcf_type *pcf_add_type(struct pcf *pcf, int type_id, const char *label)
 {
@@ -101,7 +110,7 @@ struct pcf_value *cpu_add_to_pcf_type(struct cpu *cpu, struct pcf_type *type)
 	return &g_val_obj;
 }
 #define CONN_FRAME g_addc_n, g_addt_n, g_addx_n, g_addc_rows, g_addt_rows, g_add_rec, g_tc_n, g_tc_obj, g_tc_bay, g_tc_rec, \
-	g_cc2_n, g_cc2_obj, g_cc2_bay, g_cc2_rec, g_pa2_n, g_pa2_prf, g_pa2_idx, g_tp_n, g_tp_pcf, g_af_n, g_af_pcf, g_ca_n, g_ca_cpu, g_ca_type, g_decl_cpu
+	g_cc2_n, g_cc2_obj, g_cc2_bay, g_cc2_rec, g_pa2_n, g_pa2_prf, g_pa2_idx, g_tp_n, g_tp_pcf, g_af_n, g_af_pcf, g_ca_n, g_ca_cpu, g_ca_type, g_decl_cpu, g_cp_n, g_cp_pcf
 
 #include "c13_pvtstubs.h"   /* prv_open ... behind pvt.c: logging stubs (not reached from the two entries) */
 #include "pv/pvt.c"          /* real: pvt_get_prf, pvt_get_pcf */
@@ -156,10 +165,12 @@ __CPROVER_requires(g_nt < 1 || __CPROVER_is_fresh(sys->threads->proc, sizeof(str
 __CPROVER_requires(g_nt < 2 || __CPROVER_is_fresh(sys->threads->gnext->proc, sizeof(struct proc)))
 /* totals as init_global_indices leaves them (any value that fits a long) */
 __CPROVER_requires(sys->ncpus <= INT_MAX && sys->nthreads <= INT_MAX)
-__CPROVER_requires(g_addc_n == 0 && g_addt_n == 0 && g_addx_n == 0 && g_tc_n == 0 && g_cc2_n == 0 && g_pa2_n == 0 && g_tp_n == 0 && g_af_n == 0 && g_ca_n == 0)
+__CPROVER_requires(g_addc_n == 0 && g_addt_n == 0 && g_addx_n == 0 && g_tc_n == 0 && g_cc2_n == 0 && g_pa2_n == 0 && g_tp_n == 0 && g_af_n == 0 && g_ca_n == 0 && g_cp_n == 0 && g_decl_cpu == 0)
 __CPROVER_requires(g_k >= 0 && g_k < 2 && g_kp >= 0 && g_kp < 4 && DIAG_PRE && LOW_PRE && g_snp_n < 1000000u)
 __CPROVER_assigns(CONN_FRAME, DIAG_FRAME, g_lowfail, g_snp_ret, g_snp_n)
 __CPROVER_ensures((RV == 0) == (g_lowfail == OLD(g_lowfail)))
+/* the CPU base types are declared once, in the cpu .pcf, and the thread types do not leak into it */
+__CPROVER_ensures(RV != 0 || (g_cp_n == 1 && g_cp_pcf == (void *) &g_pvt_cpu->pcf && g_decl_cpu == 1))
 __CPROVER_ensures(RV == 0 || (RV == -1 && g_err > OLD(g_err)))
 /* the two traces are declared once each, with the system totals as row counts */
 __CPROVER_ensures(RV != 0 || (g_addc_n == 1 && g_addt_n == 1 && g_addx_n == 0 && g_addc_rows == (long) sys->ncpus && g_addt_rows == (long) sys->nthreads && g_add_rec == (void *) rec))
@@ -188,13 +199,11 @@ void h_system_connect(void)
 }
 
 /* =====================================================================================
- * KNOWN FINDING twin (expected to FAIL on the unchanged tree): the cpu trace prints the CPU base
- * types PRV_CPU_PID=1, PRV_CPU_TID=2, PRV_CPU_NRUN=3 (cpu.c chan_type, registered by cpu_connect
- * for every CPU) but nothing declares a type in the .pcf of the cpu trace: system_connect declares
- * the thread types only (thread_create_pcf_types on the thread pcf) and cpu.c has no counterpart.
- * Necessary condition checked here: with at least one CPU, an accepted system_connect makes some
- * type declaration in the cpu .pcf.  Native evidence: every cpu.pcf under /repo/_build/test/emu
- * (e.g. emu-ovni-merge-cpus-loom.dir/ovni) declares only model types (7) while cpu.prv holds 1,2,3.
+ * Regression obligation of finding D11 (fixed in /repo by 65280b6): the cpu trace prints the CPU
+ * base types PRV_CPU_PID=1, PRV_CPU_TID=2, PRV_CPU_NRUN=3 (cpu.c chan_type, registered by
+ * cpu_connect for every CPU); before the fix nothing declared a type in the .pcf of the cpu trace
+ * (cpu.prv held 1,2,3, cpu.pcf only model types).  An accepted system_connect must declare the CPU
+ * types in the cpu .pcf (cpu_create_pcf_types, proved in group cpu_create_pcf_types), exactly once.
  * ===================================================================================== */
 int ck_system_connect(struct system *sys, struct bay *bay, struct recorder *rec)
 __CPROVER_requires(__CPROVER_is_fresh(sys, sizeof(struct system)) && PVT_OBJ(g_pvt_cpu) && PVT_OBJ(g_pvt_th))
@@ -203,14 +212,15 @@ __CPROVER_requires(g_nt == LEN2(sys->threads, gnext) && g_nc == LEN2(sys->cpus, 
 __CPROVER_requires(g_nt < 1 || __CPROVER_is_fresh(sys->threads->proc, sizeof(struct proc)))
 __CPROVER_requires(g_nt < 2 || __CPROVER_is_fresh(sys->threads->gnext->proc, sizeof(struct proc)))
 __CPROVER_requires(sys->ncpus <= INT_MAX && sys->nthreads <= INT_MAX && g_decl_cpu == 0)
-__CPROVER_requires(g_addc_n == 0 && g_addt_n == 0 && g_addx_n == 0 && g_tc_n == 0 && g_cc2_n == 0 && g_pa2_n == 0 && g_tp_n == 0 && g_af_n == 0 && g_ca_n == 0)
+__CPROVER_requires(g_addc_n == 0 && g_addt_n == 0 && g_addx_n == 0 && g_tc_n == 0 && g_cc2_n == 0 && g_pa2_n == 0 && g_tp_n == 0 && g_af_n == 0 && g_ca_n == 0 && g_cp_n == 0)
 __CPROVER_requires(g_k >= 0 && g_k < 2 && g_kp >= 0 && g_kp < 4 && DIAG_PRE && LOW_PRE && g_snp_n < 1000000u)
 __CPROVER_assigns(CONN_FRAME, DIAG_FRAME, g_lowfail, g_snp_ret, g_snp_n)
-__CPROVER_ensures(RV != 0 || g_nc == 0 || g_decl_cpu > 0)
+__CPROVER_ensures(RV != 0 || (g_decl_cpu == 1 && g_cp_n == 1 && g_cp_pcf == (void *) &g_pvt_cpu->pcf))
 ;
 void h_cpu_types_declared(void)
 {
 	struct system *sys; struct bay *bay; struct recorder *rec;
 	int r = system_connect(sys, bay, rec);
 	if (r == 0 && g_nc > 0) REACH("accepted with at least one CPU");
+	if (r == 0 && g_nc == 0) REACH("accepted without CPUs");
 }
